@@ -91,6 +91,10 @@ package vuego
 //@ spec func lookupIdx(s *Stack, name string, i int) int decreases i + 1 {
 //@   i < 0 ? 0 - 1 : ((name in s.stack[i]) ? i : lookupIdx(s, name, i - 1)) }
 
+// propagateTemplateAttributes pops the top scope by hand, calls Set on the parent and re-appends the scope:
+// it writes Stack.stack from outside the type. It is accepted as the one outside writer (assumed to restore
+// the invariant; it never touches pooled and restores the length); any other outside writer fails the obligation.
+//@ writer Stack (*Vue).propagateTemplateAttributes
 //@ invariant (s *Stack) C17.pool.len: len(s.pooled) == len(s.stack)
 //@ invariant (s *Stack) C10+C17.pool.inv: forall i int :: 0 <= i && i < len(s.pooled) && i < len(s.stack) && s.pooled[i] ==> fromPool(s.stack[i])
 
